@@ -103,12 +103,23 @@ def init_values(keys, vf):
     return 0 if vf == "scalar0" else 7
 
 
+CALLER = {}
+
+
 def make(keys, mod, kdt, vf, values=None):
     from npstructures import HashTable
     karr = np.array(keys, dtype=kdt) if kdt else list(keys)
     v = init_values(keys, vf) if values is None else values
     if isinstance(v, list):
-        return HashTable(karr, np.array(v), mod=mod)
+        varr = np.array(v)
+        # the caller's own arrays (must stay untouched) and a twin table built from the very same arrays (must stay independent)
+        CALLER.clear()
+        CALLER.update({"keys": karr, "keys0": np.array(karr).copy(), "values": varr, "values0": varr.copy()})
+        t = HashTable(karr, varr, mod=mod)
+        if values is None:
+            CALLER["twin"] = HashTable(karr, varr, mod=mod)
+            CALLER["twin_model"] = {k: v[i] for i, k in enumerate(keys)}
+        return t
     if vf == "scalar_half":
         return HashTable(karr, v, mod=mod)          # float scalar, no value_dtype given
     return HashTable(karr, v, mod=mod, value_dtype=np.int64 if vf != "floats" else np.float64)
@@ -390,10 +401,30 @@ def run_shard(shard, tier, acc):
         frontier = nxt
 
 
+def _caller_check(acc, cfg):
+    """after an operation on a table: the arrays given to its constructor and a twin table built from them are as before"""
+    if not CALLER or cfg[3] not in ("ints", "floats"):
+        return True
+    ok = np.array_equal(np.asarray(CALLER["keys"]), CALLER["keys0"]) and np.array_equal(CALLER["values"], CALLER["values0"])
+    if not ok:
+        acc.fail("constructor-argument-modified", (CALLER["keys0"].tolist(), CALLER["values0"].tolist()),
+                 (np.asarray(CALLER["keys"]).tolist(), CALLER["values"].tolist()))
+        return False
+    tw = CALLER.get("twin")
+    if tw is not None:
+        o = attempt(lambda: {int(k): pyval(v) for k, v in tw.to_dict().items()})
+        if o != {int(k): pyval(v) for k, v in CALLER["twin_model"].items()}:
+            acc.fail("table-built-from-the-same-arrays-changed", CALLER["twin_model"], o)
+            return False
+    return True
+
+
 def _step(acc, cfg, hist, op, seen):
     t, d = replay(cfg, hist)
     r = attempt(lambda: impl_apply(t, op, cfg))
     acc.trans()
+    if not _caller_check(acc, cfg):
+        return "bad"
     d2 = model_apply(d, op, cfg[0])
     if is_refused(r):
         if not MUST_REFUSE(op, d):
